@@ -203,6 +203,25 @@ def indexed_slot(a, p):
     return up[0], up[1], i
 
 
+def cursor_slot(p):
+    """A pointer `owner.storage.as_ptr().add(owner.cursor)` where `owner` is what closure upvar k points to: (k, storage field, cursor field).
+    The slot is the element the owner's own cursor designates at that moment. None otherwise."""
+    if not (p[0] == "P" and isinstance(p[1], tuple) and len(p[1]) == 3 and p[1][0] == "field" and len(p[1][2]) == 1):
+        return None
+    owner = p[1][1]
+    k = upvar_of(owner)
+    if k is None or len(p[2].t) != 1:
+        return None
+    (mono, coeff), = p[2].t.items()
+    if coeff != 1:
+        return None
+    cur = [x for x in mono if isinstance(x, tuple) and x and x[0] == "cell" and isinstance(x[1], tuple) and len(x[1]) == 2 and x[1][0] == owner and len(x[1][1]) == 1]
+    sizes = [x for x in mono if x not in cur]
+    if len(cur) != 1 or len(sizes) != 1 or not (isinstance(sizes[0], tuple) and sizes[0] and sizes[0][0] == "S"):
+        return None
+    return k, p[1][2][0], cur[0][1][1][0]
+
+
 def closure_events(a, cl, region=None):
     """Ordered events per block of a step body: list of (bb, order, kind, data).  A step is a closure body (region None: slots are
     pointers derived from the closure's item parameters, positions are by-reference upvars) or one iteration of a loop over an iterator
@@ -212,6 +231,8 @@ def closure_events(a, cl, region=None):
         return region.events(cl)
     indexed = []
     a.__dict__["indexed_slots"] = indexed
+    cursors = []
+    a.__dict__["cursor_slots"] = cursors
     for c in a.calls:
         order = 10 ** 6
         kind = None
@@ -219,6 +240,11 @@ def closure_events(a, cl, region=None):
             kind, data = "read", repr(c.args[0][1])
         elif c.fn in ("core::ptr::write", "core::mem::MaybeUninit::<T>::write") and c.args[0][0] == "P" and param_derived(c.args[0][1]):
             kind, data = "write", repr(c.args[0][1])
+        elif c.fn in ("core::ptr::read", "core::ptr::read_unaligned", "core::ptr::write", "core::mem::MaybeUninit::<T>::write") and c.args[0][0] == "P" and cursor_slot(c.args[0]) is not None:
+            # cursor-addressed slot: the element the owner's own cursor designates (`take_next()`-style access through a `&mut owner` upvar)
+            k_, farr, fpos = cursor_slot(c.args[0])
+            kind, data = ("read" if "read" in c.fn else "write"), repr(("cur", k_, farr, fpos))
+            cursors.append((k_, farr, fpos))
         elif c.fn in ("core::ptr::read", "core::ptr::read_unaligned", "core::ptr::write") and c.args[0][0] == "P" and indexed_slot(a, c.args[0]) is not None:
             # index-addressed slot: element i of the storage an upvar points to, i being the closure's index parameter
             k_, depth, ix = indexed_slot(a, c.args[0])
@@ -232,6 +258,12 @@ def closure_events(a, cl, region=None):
             ev.append((c.bb, order, kind, data, c))
     for s in a.stores:
         k = upvar_of(s["cell"][0])
+        if k is not None and len(s["cell"][1]) == 1 and isinstance(s["cell"][1][0], int) and s["val"][0] == "I" and any(cu[0] == k and cu[2] == s["cell"][1][0] for cu in cursors):
+            # the cursor field of the owner upvar k points to
+            own = Poly.atom(("cell", (s["cell"][0], s["cell"][1])))
+            d = s["val"][1] - own
+            ev.append((s["site"][0], s["site"][1], "inc", (("fld", k, s["cell"][1][0]), d.const_value() if d.is_const() else None, None), s))
+            continue
         if k is not None and s["cell"][1] == () and s["val"][0] == "I":
             own = Poly.atom(("cell", (s["cell"][0], ())))
             d = s["val"][1] - own
@@ -342,6 +374,7 @@ def check_closure_protocol(a, cl, region=None):
     info["abs"] = {e[3][0]: e[3][1][1] for evs in by_bb.values() for e in evs if e[2] == "inc" and isinstance(e[3][1], tuple)}
     info["indexed"] = list(getattr(a, "indexed_slots", [])) if region is None else []
     info["enum_abs"] = bool(getattr(a, "enum_abs", False)) if region is None else False
+    info["cursors"] = list(getattr(a, "cursor_slots", [])) if region is None else []
     reads = any(e[2] == "read" for evs in by_bb.values() for e in evs)
     writes = any(e[2] == "write" for evs in by_bb.values() for e in evs)
     if not reads and not writes:
